@@ -44,7 +44,7 @@ def engine (m l scale : Nat) : Engine TE Int where
   process := fun e n => loop e.inq.length e n
   output := fun e n => (e.outq.take n, { e with outq := e.outq.drop n })
   setRatio := fun e r _ => { e with m := r / 16, l := r % 16 }
-  delay := fun e => e.inq.length + e.outq.length
+  delay := fun e => e.inq.length + e.outq.length + (if e.fl then 1000 else 0)   -- the flush latch shows in soxr_delay
 
 /-! ### the count abstraction of the toy engine -/
 
@@ -88,14 +88,14 @@ def shape (m l scale : Nat) : Shape (engine m l scale) TK where
   outLen := fun k n => min n k.o
   outputK := fun k n => { k with o := k.o - n }
   setRatioK := fun k r _ => { k with m := r / 16, l := r % 16 }
-  delayK := fun k => k.i + k.o
+  delayK := fun k => k.i + k.o + (if k.fl then 1000 else 0)
   input_sh := by intro e xs; simp [engine, sh]
   flush_sh := by intro e; simp [engine, sh]
   process_sh := by intro e n; exact sh_loop _ e n
   output_len := by intro e n; simp [engine, sh]
   output_sh := by intro e n; simp [engine, sh]
   setRatio_sh := by intro e r l; simp [engine, sh]
-  delay_sh := by intro e; simp [engine, sh]
+  delay_sh := by intro e; rcases e with ⟨i, o, fl, m, l, sc⟩; cases fl <;> rfl
 
 /-! ### conversions -/
 
